@@ -353,6 +353,21 @@ func damages() []dmg {
 		relDmg("rel_memids_shorter", func(r *pbfgen.Relation, _ uint32) { r.Trim = map[string]int{"memids": 1} }),
 		relDmg("rel_roles_shorter", func(r *pbfgen.Relation, _ uint32) { r.Trim = map[string]int{"roles": 1} }),
 		relDmg("rel_vals_shorter", func(r *pbfgen.Relation, _ uint32) { r.Trim = map[string]int{"vals": 1} }),
+		// the block's string table is missing altogether while its elements keep their references
+		// (every reference is out of range; a decoder that reuses its previous block's table
+		// would not notice)
+		inBlock("stringtable_removed_way", func(b *pbfgen.Block, _ uint32, _ *rand.Rand) pbfgen.Item {
+			b.OmitStringTable = true
+			return pbfgen.Item{Way: goodWay()}
+		}),
+		inBlock("stringtable_removed_dense", func(b *pbfgen.Block, _ uint32, _ *rand.Rand) pbfgen.Item {
+			b.OmitStringTable = true
+			return pbfgen.Item{Dense: goodDense(b)}
+		}),
+		inBlock("stringtable_removed_rel", func(b *pbfgen.Block, _ uint32, _ *rand.Rand) pbfgen.Item {
+			b.OmitStringTable = true
+			return pbfgen.Item{Relation: goodRel()}
+		}),
 		inBlock("plain_node", func(b *pbfgen.Block, _ uint32, _ *rand.Rand) pbfgen.Item {
 			return pbfgen.Item{Node: &pbfgen.PlainNode{ID: 900030, Lat: 1, Lon: 2}}
 		}),
